@@ -6,7 +6,7 @@ use crate::sym::{sem_of, Rat};
 use crate::term::cps;
 use crate::util::{seed, Opts};
 use rand::rngs::StdRng;
-use rand::seq::IndexedRandom;
+use rand::seq::{IndexedRandom, SliceRandom};
 use rand::{Rng, SeedableRng};
 use serde_json::{json, Value};
 use std::io::Write;
@@ -69,6 +69,8 @@ impl TG<'_> {
                     let shift = rsub(base, c).filter(|s| small(*s));
                     if let Some(s) = shift {
                         let arg = if s.n == 0 { a } else if s.n > 0 { format!("{a} + {}", rtext(s)) } else { format!("{a} - {}", rtext(Rat { n: -s.n, d: s.d })) };
+                        // base point 0: the negated argument is on the base point as well (`cos(-(x))`: sign innermost in the chain)
+                        let arg = if bn == 0 && self.rng.random_bool(0.25) { format!("-({arg})") } else { arg };
                         let v = val.map(|(n, d)| Rat { n, d });
                         // unary signs directly in front of the function (one unary chain in the flat form)
                         return match self.rng.random_range(0..6) {
@@ -81,6 +83,11 @@ impl TG<'_> {
                 }
             }
             return self.gen(0);
+        }
+        if self.rng.random_bool(0.12) {
+            // a sign in front of a sub-expression (`cos(-x)`: the sign is the innermost operator of a unary chain)
+            let (a, av) = self.gen(depth - 1);
+            return if self.rng.random_bool(0.75) { (format!("-{a}"), av.map(|r| Rat { n: -r.n, d: r.d })) } else { (format!("+{a}"), av) };
         }
         let (l, lv) = self.gen(depth - 1);
         let (r, rv) = self.gen(depth - 1);
@@ -228,9 +235,11 @@ fn ops(rng: &mut StdRng, with: &[&str]) -> Value {
     let std_u = ["neg", "abs", "sin", "cos", "tan", "sinh", "cosh", "tanh", "asin", "acos", "atan", "signum", "log", "log2", "log10", "ln", "round", "floor", "ceil", "exp", "sqrt", "cbrt", "fract", "trunc"];
     let names = ["x", "y", "z", "a", "b", "v w"];
     let mut steps = vec![];
+    // "tower": every call works on the result of the previous one (repeated flat -> deep -> flat round trips of one value)
+    let tower = !with.contains(&"subs") && rng.random_bool(0.3);      // substituting a tower into itself explodes
     for _ in 0..n_steps {
-        let i = rng.random_range(1..=size);
-        let j = rng.random_range(1..=size);
+        let i = if tower && !steps.is_empty() { size } else { rng.random_range(1..=size) };
+        let j = if tower && rng.random_bool(0.3) { size } else { rng.random_range(1..=size) };
         let kind = *with.choose(rng).unwrap();
         let st = match kind {
             "op" => {
@@ -251,6 +260,51 @@ fn ops(rng: &mut StdRng, with: &[&str]) -> Value {
         size += 1;
     }
     json!({"seeds": seeds, "steps": steps, "tag": "ops"})
+}
+
+/// operator application / substitution on expressions with many variables (merged lists beyond the inline capacity of 16)
+fn manyvars(rng: &mut StdRng) -> Value {
+    let mut pool: Vec<String> = vec![];
+    for i in 0..20 { pool.push(format!("v{i:02}")); }
+    for i in 0..12 { pool.push(format!("a{i:02}")); }
+    for n in ["B", "Z9", "_u", "x", "y", "zz", "α", "ω2"] { pool.push(n.to_string()); }
+    let nseeds = rng.random_range(2..=4);
+    let mut seeds = vec![];
+    for _ in 0..nseeds {
+        let k = rng.random_range(3..=24);
+        let mut names = pool.clone();
+        names.shuffle(rng);
+        names.truncate(k);
+        let mut s = String::new();
+        for (i, n) in names.iter().enumerate() {
+            if i > 0 { s.push_str(["+", "*", "-", "+"].choose(rng).unwrap()); }
+            s.push_str(n);
+            if rng.random_bool(0.15) { s.push_str(&format!("*{}", names.choose(rng).unwrap())); }
+        }
+        seeds.push(json!({"text": cps(&s), "form": if rng.random_bool(0.6) { "flat" } else { "deep" }}));
+    }
+    let mut size = seeds.len();
+    let mut steps = vec![];
+    for _ in 0..rng.random_range(2..=6) {
+        let i = rng.random_range(1..=size);
+        let j = rng.random_range(1..=size);
+        let st = match rng.random_range(0..8) {
+            0 | 1 | 2 => json!({"act": "op_bin", "i": i, "j": j, "name": cps(["+", "*", "-", "/"].choose(rng).unwrap())}),
+            3 | 4 => {
+                let op = *["add", "mul", "sub", "div"].choose(rng).unwrap();
+                json!({"act": "std", "op": op, "i": i, "j": j})
+            }
+            5 => {
+                let m: Vec<Value> = (0..rng.random_range(1..=3)).map(|_| json!([cps(pool.choose(rng).unwrap()), rng.random_range(1..=size)])).collect();
+                json!({"act": "subs", "i": i, "map": m})
+            }
+            6 => json!({"act": if rng.random_bool(0.5) { "to_deep" } else { "to_flat" }, "i": i}),
+            _ => json!({"act": "op_un", "i": i, "name": cps(["-", "sin", "+"].choose(rng).unwrap())}),
+        };
+        steps.push(st);
+        size += 1;
+    }
+    json!({"seeds": seeds, "steps": steps, "tag": "manyvars"})
 }
 
 pub fn val_table_json() -> Value {
@@ -416,6 +470,7 @@ pub fn main(args: &[String]) -> i32 {
             "subs" => ops(&mut rng, &["subs", "subs", "conv", "op"]),
             "print" => ops(&mut rng, &["print", "op", "std", "subs", "conv", "partial", "print"]),
             "advnames" => advnames(&mut rng),
+            "manyvars" => manyvars(&mut rng),
             "valdiff" => valdiff(&mut rng),
             _ => ops(&mut rng, &["op", "std", "conv", "subs", "print", "partial"]),
         };
